@@ -65,6 +65,7 @@ class Oracle:
         self.codes = {}      # code name -> {"session", "t", "redeemed", "i"}
         self.legs = {}       # request object name -> the leg that announced it
         self.jtis = {}       # jti of a proof of possession answered valid -> (op index, t)
+        self.tok_exp = {}    # token name -> (op index, exact expiry instant of the stored record) after a tokskew fixture
 
     def policy(self, scope):
         for p in self.cfg.get("policy", []):
@@ -286,6 +287,12 @@ class Oracle:
         exp, t0 = self.expected_std(tok)
         j = self.tokens[tok][0]
         t = op["t"]
+        if tok in self.tok_exp:
+            # the record's Expiration was moved (fixture): active => now <= expiration, at exact instants
+            k, e = self.tok_exp[tok]
+            if t > e and line != "ok active=false":
+                self.bad("introspection-active-after-expiry", f"ops {j},{k},{i}: the record expired {(t - e) / 10**6:.3f} ms before the introspection, answer: {line[:120]}", [j, k, i])
+            return
         if abs(t - (t0 + self.validity)) < 1000:
             return  # within a microsecond of the expiry instant
         if t > t0 + self.validity:
@@ -565,6 +572,13 @@ class Oracle:
             self.judge_reqobj(i, op, line)
         elif kind == "dpopval":
             self.judge_dpopval(i, op, line)
+        elif kind == "tokskew":
+            if line == "skewed":
+                self.tok_exp[op["token"]] = (i, op["t"] - op["ms"] * 10**6)
+        elif kind == "onceonly":
+            m = re.match(r"once-only max-fresh=(\d+)$", line)
+            if m and int(m.group(1)) > 1:
+                self.bad("once-only-registration-granted-to-concurrent-requests", f"op {i}: {op.get('ms')} concurrent requests registered the same fresh s2s nonce, {m.group(1)} were told it was fresh", [i])
         elif kind == "seed":
             self.sessions[op["state"]] = {"spec": op["session"], "t": op["t"], "fulfilled": [], "nonces": {op["nonce"]: op["t"]}, "i": i}
         elif kind == "authresp":
@@ -678,7 +692,7 @@ def run(ctx):
         a, b = world_of(idx[0])
         # replay = the world's configuration + every state-changing op up to the last op involved (time advances included)
         keep = [a] + [k for k in range(a + 1, idx[-1] + 1)
-                      if k in idx or ops[k].get("op") in ("advance", "seed", "authresp", "authreq", "authz", "race", "reqobj") or (ops[k].get("op") == "dpopval" and impl[k] == "valid") or (ops[k].get("op") in ("s2s", "code") and impl[k].startswith("200"))]
+                      if k in idx or ops[k].get("op") in ("advance", "seed", "authresp", "authreq", "authz", "race", "reqobj", "tokskew") or (ops[k].get("op") == "dpopval" and impl[k] == "valid") or (ops[k].get("op") in ("s2s", "code") and impl[k].startswith("200"))]
         replay = "\n".join(clean(ops[k]) for k in keep) + "\n"
         if ctx.violation(sig, text, re.sub(r"[^A-Za-z0-9_.-]+", "_", sig.split(":", 1)[1])[:80] + ".jsonl", replay):
             new_sigs.append(sig)
